@@ -172,7 +172,7 @@ def check_case(ctx, r, tmp, gpath, rep):
             ctx.violation(None, 'textx check reported %d OK lines for %d valid files' % (oks, len(files)), wit, rep)
 
 
-NAMES = ['color', 'out-dir', 'max_depth', 'a-b-c', 'x', 'with-header', 'mixed_name-x', 'lang_opt']
+NAMES = ['color', 'out-dir', 'max_depth', 'a-b-c', 'x', 'with-header', 'mixed_name-x', 'lang_opt', 'project-root', 'project_root']  # project_root is also a model parameter of every metamodel
 
 
 def generate_case(ctx, r, tmp, gpath, rep):
